@@ -19,8 +19,9 @@ Prog = collections.namedtuple('Prog', 'outer calls context route taint')
 #   context: see CONTEXTS; route: see ROUTES; taint: None | (kind, 'va'|'vk', 'before'|'after')
 
 CONTEXTS = ('return', 'assign', 'if', 'ifelse', 'tryfinally', 'tryexcept', 'with', 'listcomp',
-            'nested', 'lambda', 'decoy_before', 'decoy_after')
-NESTED_CONTEXTS = ('nested', 'lambda')
+            'nested', 'lambda', 'decoy_before', 'decoy_after',
+            'arg_of_call', 'nested_arg_of_call', 'lambda_arg_of_call', 'nested2', 'result_attr')
+NESTED_CONTEXTS = ('nested', 'lambda', 'nested_arg_of_call', 'lambda_arg_of_call', 'nested2')
 ROUTES = ('global', 'closure', 'attr1', 'attr2', 'method', 'param', 'partial')
 TAINTS_ANY = ('rebind', 'augassign', 'delrebind', 'fortarget', 'withas', 'walrus', 'starunpack', 'nonlocal')
 TAINTS_VK = ('methodcall', 'itemstore', 'handover')
@@ -135,6 +136,16 @@ def body_lines(prog, uid):
         return ['def h_():', '    return ' + e0] + before + ['r = h_()'] + after + ['return r']
     elif ctx == 'lambda':
         return ['h_ = lambda: ' + e0] + before + ['r = h_()'] + after + ['return r']
+    elif ctx == 'nested_arg_of_call':
+        return ['def h_():', '    return IDENT(' + e0 + ')'] + before + ['r = h_()'] + after + ['return r']
+    elif ctx == 'lambda_arg_of_call':
+        return ['h_ = lambda: IDENT(' + e0 + ')'] + before + ['r = h_()'] + after + ['return r']
+    elif ctx == 'nested2':
+        return ['def h_():', '    def g_():', '        return ' + e0, '    return g_()'] + before + ['r = h_()'] + after + ['return r']
+    elif ctx == 'arg_of_call':
+        core = ['r = IDENT(' + e0 + ')']
+    elif ctx == 'result_attr':
+        core = ['r = ' + e0 + '.real']
     elif ctx == 'decoy_before':
         core = ['DECOY(1, x=2)', 'r = ' + e0]
     elif ctx == 'decoy_after':
